@@ -44,6 +44,14 @@ def observer(o, c, home, wrong=False):
         return '-transformed-by filter -line-nums 2:\n    num-lines == %d' % (c['tailLines'] + (1 if wrong else 0))
     if o == 'head':
         return '-transformed-by filter -line-nums 1\n    num-lines == %d' % (c['headLines'] + (1 if wrong else 0))
+    if o == 'notfirst':
+        # compared with a text held in memory: its own first line (expressible when that line is made of a / b)
+        fl = c['firstLine']
+        if not fl or any(x not in (0, 1, 5) for x in fl):
+            return observer('lines', c, home, wrong)
+        lit = '"%s"' % ''.join('@[NEW_LINE]@' if x == 0 else CH[x] for x in fl)
+        same = bool(c['onlyFirst']) != wrong
+        return ('equals %s' if same else '! equals %s') % lit
     raise ValueError(o)
 
 
@@ -91,7 +99,7 @@ def sig(c):
 def run(ctx):
     quick = ctx.tier == 'quick'
     rnd = random.Random(ctx.seed)
-    text_ids = list(range(1, 15))
+    text_ids = list(range(1, 17))
     chains = ['none', 'identity', 'lower', 'filter', 'run', 'replace', 'seq']
     mems = ['1', 'len', 'len+1', 'default'] if quick else ['1', 'len', 'len+1', 'len-1', 'default']
     max_obs = 2 if quick else 3
@@ -148,7 +156,7 @@ def run(ctx):
     for c in (cases[3], cases[len(cases) // 2], cases[-1]):
         ctx.sample(dict(case=sig(c), test_case=case_text(c, '<home>'), memory_buffer=mem_size(c), expected='PASS'))
     ctx.cov['exhaustive'] = True
-    ctx.cov['rule'] = ('every case of StringSource.tla: 14 texts (empty, no final new-line, FF, U+2028, CR LF, > default '
+    ctx.cov['rule'] = ('every case of StringSource.tla: 16 texts (empty, a long second line, no final new-line, FF, U+2028, CR LF, > default '
                        'buffer) x {file, program output} x 7 value-preserving transformer chains x %d buffer-size classes x '
                        'every sequence of <= %d observers (as lines, as string, as file, through stdin); non-trivial = '
                        'every distinct case' % (len(mems), max_obs))
